@@ -362,7 +362,9 @@ impl Builder {
 
         let mut header = self.header.take().unwrap_or_default();
 
-        if self.length.is_some() {
+        if let Some(length) = self.length {
+            // The fixed part may have been written before `set_length` was last called.
+            header[LENGTH..LENGTH + 2].copy_from_slice(length.to_be_bytes().as_slice());
             return Ok(header);
         }
 
